@@ -48,7 +48,7 @@ static void build_object(ezc3d::c3d& c, Built& B) {
     for (int i = 0; i < ex_ndim; ++i) { char k[8] = "ex_d0"; k[4] = char('0' + i); dims.push_back(__vp_cfg(k)); }
     if (ex_type == 2) { for (int i = 0; i < ex_n; ++i) ex_i.push_back((int)(short)__vp_sym_u16("iv")); ex.set(ex_i, dims); }
     if (ex_type == 4) { for (int i = 0; i < ex_n; ++i) ex_f.push_back(__vp_sym_f32("fv")); ex.set(ex_f, dims); }
-    if (ex_type == -1) { for (int i = 0; i < ex_n; ++i) ex_s.push_back(sym_str("sv", ex_slen)); ex.set(ex_s, dims); }
+    if (ex_type == -1) { for (int i = 0; i < ex_n; ++i) ex_s.push_back(sym_str("sv", i == 0 ? ex_slen : (unsigned)((ex_slen + i) % (ex_slen + 1)))); ex.set(ex_s, dims); }   // lengths differ, one may be empty
     if (__vp_sym_u8("exlock") & 1) ex.lock();
   }
   const char* grp = ex_group == 1 ? "POINT" : "Grp";
